@@ -1035,7 +1035,18 @@ class Engine(object):
 
     def _branch_deferred(self, cond):
         """fork on a non-linear test WITHOUT feasibility check; keep it as a deferred constraint.
-        Explores a superset of the real paths (sound for 'holds')."""
+        Explores a superset of the real paths (sound for 'holds').
+        nl_policy == 'stationary' (C05's larger graphs only): the single caller is Solver.solve's loop test
+        abs(lastcost - cost) > 1e-4; it is taken as TRUE (continue) whenever the two costs are not the identical
+        polynomial, i.e. solve() is assumed to stop only at exact stationarity -- inputs on which the real loop stops
+        because the cost moved by less than 1e-4 although positions still changed are then OUTSIDE the claim."""
+        if getattr(self, "nl_policy", None) == "stationary":
+            self.deferred.append(cond)
+            self.events.append(("nl-assumed", True))
+            self.stats.__dict__["assumed_continue"] = self.stats.__dict__.get("assumed_continue", 0) + 1
+            if self.stats.__dict__["assumed_continue"] > 10**6:
+                raise BoundExceeded("cost loop")
+            return True
         if self.idx < len(self.prefix):
             d = self.prefix[self.idx]
         else:
